@@ -19,9 +19,13 @@ EXTENDS Integers, Sequences, FiniteSets, TLC
 
 CONSTANTS N,        \* rows in the batch
           NC,       \* search conditions
-          UseZip    \* FALSE: the code (id map); TRUE: mutant (positional zip)
+          UseZip,   \* FALSE: the code (id map); TRUE: mutant (positional zip)
+          IdOf      \* the id a row carries after preprocessing: its position (IdPos, the code:
+                    \* data_splitter overwrites the id column) or whatever arrived with the row (IdShift)
 
 Rows == 1..N
+IdPos == [j \in Rows |-> j]
+IdShift == [j \in Rows |-> (j % N) + 1]
 VARIABLES solvedBefore,  \* [Rows -> BOOLEAN]  solved before the MCS stage
           total,         \* [Rows -> [1..NC -> 0..1]] atoms matched per condition (0 = nothing)
           mcs,           \* [Rows -> record or "none" or "absent"]  what MCSSearch.find left in the row
@@ -87,7 +91,9 @@ Find ==
 (***************************************************************************)
 Selected(Sel) == SelectSeq([j \in Rows |-> j], LAMBDA j : j \in Sel)
 \* values computed for the selected rows, in order, each tagged with id and origin
-Results(Sel) == [k \in 1..Len(Selected(Sel)) |-> [id |-> Selected(Sel)[k], origin |-> Selected(Sel)[k]]]
+\* the id is what the row carries; the rule-based stage and post-processing use it as the row's position
+\* (reactions[int(id)], key_index_map)
+Results(Sel) == [k \in 1..Len(Selected(Sel)) |-> [id |-> IdOf[Selected(Sel)[k]], origin |-> Selected(Sel)[k]]]
 ById(Sel) == [j \in Rows |-> IF \E k \in 1..Len(Results(Sel)) : Results(Sel)[k].id = j
                               THEN (CHOOSE k \in 1..Len(Results(Sel)) : Results(Sel)[k].id = j) ELSE 0]
 WriteById(Sel) == [j \in Rows |-> IF ById(Sel)[j] = 0 THEN 0 ELSE Results(Sel)[ById(Sel)[j]].origin]
@@ -98,7 +104,8 @@ WriteByPosition(Sel) == [j \in Rows |-> IF j <= Len(Results(Sel)) THEN Results(S
 
 RoutedRight(w, Sel) == \A j \in Rows : w[j] = (IF j \in Sel THEN j ELSE 0)
 OtherWriteBacks ==
-    \A Sel \in SUBSET Rows :
+    /\ pc \in {"find", "done"}
+    /\ \A Sel \in SUBSET Rows :
         /\ RoutedRight(IF UseZip THEN WriteByPosition(Sel) ELSE WriteById(Sel), Sel)      \* rule-based, post-processing
         /\ RoutedRight(WriteByReference(Sel), Sel)                                        \* confidence
 
